@@ -14,6 +14,7 @@ mod c03;
 mod mipsref;
 mod ppcref;
 mod c04;
+mod c05;
 mod a64ref;
 mod liftexec;
 mod c07;
@@ -41,6 +42,7 @@ fn make_check(prop: &str, tier: Tier) -> Option<Box<dyn Check>> {
         "C02" => Box::new(c02::C02::new(tier)),
         "C03" => Box::new(c03::C03::new(tier)),
         "C04" => Box::new(c04::C04::new(tier)),
+        "C05" => Box::new(c05::C05::new(tier)),
         "C07" => Box::new(c07::C07::new(tier)),
         "C08" => Box::new(c08::C08::new(tier)),
         "C09" => Box::new(c09::C09::new(tier)),
